@@ -575,7 +575,7 @@ def hstack(arrs):
 
 def squeeze(a):
     if isinstance(a, SArr):
-        keep = [d for d, s in enumerate(a.shape_e) if concrete(s) != 1]
+        keep = [d for d, s in enumerate(a.shape_e) if concrete(s) != 1 and not (concrete(s) is None and Ctx.cur is not None and not Ctx.spec and C().entails(s == 1))]
         for d in keep:
             if concrete(a.shape_e[d]) is None and not Ctx.spec:
                 # numpy squeezes every extent equal to one: a symbolic extent that happens to be 1 would be dropped
